@@ -17,6 +17,11 @@ F64 = c07.F64 + [0x3fb999999999999a, 0x47efffffe0000000, 0x47efffffe0000001, 0x3
                  0xc7efffffe0000000, 0x7ff0000000000001, 0xfff8000000000000, 0x4170000000000000]
 
 
+# CBOR tag 5 in jsoncons' text form "[-]0x<hex mantissa>p[-]<hex exponent>"; mantissas on both sides of the uint64 / bignum line (D79)
+BIGFLOAT = [b"0x1p-1", b"-0x1p-1", b"0x3p4", b"0x18p-3", b"-0x18p3", b"0xFFFFFFFFFFFFFFFFp-1", b"-0xFFFFFFFFFFFFFFFFp1", b"0x10000000000000000p-3",
+            b"-0x10000000000000001p-3", b"-0x10000000000000000p3", b"0xABCDEF0123456789ABCDEFp10", b"-0xFFFFFFFFFFFFFFFFFFFFp-10", b"0x0p0"]
+
+
 def gen_value(rng, depth, fmt, pool):
     r = rng.random()
     if depth <= 0 or r < 0.35:
@@ -57,6 +62,8 @@ def gen_value(rng, depth, fmt, pool):
             t = rng.choice(["epoch_second", "epoch_milli"] if fmt == "msgpack" else ["epoch_second"])
             return Tagged(t, rng.choice([0, 1, -1, 1363896240, 2 ** 32 - 1, 2 ** 32, 5000000000, 2 ** 34 - 1, 2 ** 34, 2 ** 40, -2 ** 33]))
         if fmt == "cbor":
+            if rng.random() < 0.4:
+                return Tagged("bigfloat", rng.choice(BIGFLOAT))
             return Tagged("bigdec", rng.choice(DEC))
         return rng.randint(-5, 5)
     if r < 0.68:
@@ -249,11 +256,60 @@ def nontrivial(line, impl):
     return line if ("[" in line or "{" in line) and len(line) > 40 else None
 
 
+def gen_bigfloat_lines(rng, n):
+    """bigfloat-tagged strings: canonical texts of (mantissa, exponent) pairs around every width boundary, lower-case and '+' spellings,
+    and a share of texts the parser must refuse"""
+    ls = []
+    edges = [0, 1, 15, 16, 23, 24, 255, 256, 2 ** 31, 2 ** 32, 2 ** 63 - 1, 2 ** 63, 2 ** 63 + 1, 2 ** 64 - 1, 2 ** 64, 2 ** 64 + 1, 2 ** 72, 2 ** 128 - 1, 2 ** 200 + 12345]
+    def hx(k, lower):
+        t = "%X" % k
+        return t.lower() if lower else t
+    for _ in range(n):
+        m = rng.choice(edges) if rng.random() < 0.6 else rng.getrandbits(rng.choice([8, 40, 63, 64, 65, 100]))
+        if rng.random() < 0.5:
+            m = -m
+        e = rng.choice([0, 1, -1, 3, -3, 23, 24, -24, -25, 255, 256, -256, -257, 2 ** 31, 2 ** 62, 2 ** 63 - 1, -2 ** 63 + 1, -2 ** 63, 2 ** 63, 2 ** 64]) if rng.random() < 0.7 else rng.randint(-100000, 100000)
+        lower = rng.random() < 0.25
+        t = ("-" if m < 0 else "") + ("0X" if rng.random() < 0.1 else "0x") + hx(abs(m), lower) + ("P" if rng.random() < 0.1 else "p")
+        t += ("-" if e < 0 else ("+" if rng.random() < 0.15 else "")) + hx(abs(e), lower)
+        r = rng.random()
+        if r < 0.04:
+            t = t.split("p")[0].split("P")[0]                 # no exponent part
+        elif r < 0.08:
+            t = t + rng.choice(["g", " ", "-", "p1", "."])
+        elif r < 0.10:
+            t = t.replace("0x", "x", 1)
+        ls.append("bin enc cbor j - s%s@bigfloat" % t.encode().hex())
+    return ls
+
+
+def bigfloat_model_line(line):
+    return "bin mbf x" + line.split()[5][1:].split("@")[0]
+
+
+def compare_bigfloat(line, io, mo):
+    if mo == "err":
+        return io.startswith("err")
+    return io.strip() == mo.strip()      # the bytes written AND the text the decoder renders for them
+
+
+def bigfloat_oracle(line, impl, model, ref=None):
+    if impl.startswith("err"):
+        return None                      # whether a refusal is right is decided by the comparison with the model
+    parts = [p.strip() for p in impl.split("|")]
+    if len(parts) < 2 or not parts[1].startswith("ok "):
+        return "the bytes written for a bigfloat do not decode: " + impl[:160]
+    return None
+
+
 def streams(ctx, rng, scale):
     lw = vlib.witness_lines(PROP)
     ctx.correspond("finding-witnesses", HARNESS, lw, oracle, nontrivial, want_model=False)
     lcore = gen_core_lines(rng, 1500 * scale)
     ctx.correspond("cbor-encoder-model", HARNESS, lcore, oracle, nontrivial, compare=compare_bytes, model_lines=[model_line(l) for l in lcore])
+    lbf = gen_bigfloat_lines(rng, 400 * scale)
+    ctx.correspond("cbor-bigfloat-model", HARNESS, lbf, bigfloat_oracle, lambda l, i: l if len(l) > 60 else None, compare=compare_bigfloat,
+                   model_lines=[bigfloat_model_line(l) for l in lbf])
     lsr = gen_stringref_docs(rng, 40 * scale)
     ctx.correspond("cbor-stringref", HARNESS, lsr, oracle, nontrivial, want_model=False)
     for fmt in ("cbor", "msgpack", "ubjson", "bson"):
